@@ -575,7 +575,7 @@ PROPS["C15"] = {
                   "repeated requests on one instance).",
     "level_note": "Trusted: Lean kernel; hand-written model tied by differential testing; open finding F15 (panicking Before hook) "
                   "matched by signature; position-based containment is proved under a stated guard (see Props/C15).",
-    "props_modules": ["Flamego.Props.C15"],
+    "props_modules": ["Flamego.Props.C15", "Flamego.Props.C15Env"],
     "suite": "C15",
     "stats": _c15_stats,
     "known_match": _c15_known_match,
